@@ -1,9 +1,13 @@
 #!/bin/sh
 # usage: tools/try_mutant.sh <patch.diff> <ID> [tier]   (applies the patch to /repo, runs the check, reverts)
+# The evidence file of the property is saved and restored: evidence must describe runs on the unchanged tree.
 P="$1"; ID="$2"; TIER="${3:-quick}"
 git -C /repo diff --quiet || { echo "/repo is dirty"; exit 2; }
 git -C /repo apply "$P" || { echo "patch does not apply"; exit 2; }
+EV=/verif/evidence/$ID.json
+[ -f "$EV" ] && cp "$EV" "$EV.keep"
 /verif/check "$ID" "$TIER"; rc=$?
-git -C /repo checkout -- . 
+git -C /repo checkout -- .
+[ -f "$EV.keep" ] && mv "$EV.keep" "$EV"
 echo "exit=$rc"
 exit $rc
